@@ -55,7 +55,7 @@ impl Set {
             for st in &bounds {
                 for en in &bounds {
                     for sp in &steps {
-                        for context in 0..4u8 {
+                        for context in [0u8, 1, 2, 3, 6, 7, 8] {
                             cases.push(Case { len, sel: Selector::Slice(*st, *en, *sp), context, family: "slice-cube" });
                         }
                     }
@@ -114,6 +114,10 @@ impl Set {
                 cases.push(Case { len, sel: sel.clone(), context: 1, family: "non-array" });
             }
         }
+        // results beyond a million nodes
+        for k in 0..SCALE.len() {
+            cases.push(Case { len: k, sel: Selector::Wildcard, context: 0, family: "scale" });
+        }
         Set { cases, armed, unions: unions.into_iter().collect() }
     }
 
@@ -159,32 +163,138 @@ impl Set {
                     J::Arr(vec![arr.clone(), J::Arr(vec![J::int(k), J::int(5)]), arr]),
                 )
             }
+            6 | 7 | 8 => {
+                // the slice inside an existence test, followed by a further segment that only
+                // some elements of the window satisfy (never the first one only)
+                let n = c.len as i64;
+                let elems: Vec<J> = (0..n)
+                    .map(|i| match c.context {
+                        6 => J::Obj(vec![(if i % 2 == 1 { "a" } else { "b" }.to_string(), J::int(i))]),
+                        7 => J::Arr(if i % 2 == 1 { vec![J::int(i), J::int(i)] } else { vec![J::int(i)] }),
+                        _ => J::Arr(vec![J::int(i)]),
+                    })
+                    .collect();
+                let tail = match c.context {
+                    6 => Segment::child(Selector::Name("a".into())),
+                    7 => Segment::child(Selector::Index(1)),
+                    _ => Segment::child(Selector::Filter(Or::single(Basic::Cmp { lhs: Comparable::Singular { root: Root::Current, steps: vec![] }, op: CmpOp::Gt, rhs: Comparable::Lit(Literal::int(1)) }))),
+                };
+                let row = J::Arr(elems);
+                let mut rev = match &row { J::Arr(v) => v.clone(), _ => vec![] };
+                rev.reverse();
+                (
+                    Query::root(vec![Segment::child(Selector::Filter(Or::single(Basic::Test { not: false, test: TestExpr::Query(Query::current(vec![Segment::child(sel), tail])) })))]),
+                    J::Arr(vec![row.clone(), J::Arr(vec![J::Obj(vec![("b".into(), J::int(9))]), J::Arr(vec![J::int(0)])]), J::Arr(rev), row]),
+                )
+            }
             _ => unreachable!(),
         }
     }
+}
+
+/// large results: (rows, width, the segment applied after `$[*]`, how it is written)
+const SCALE: [(usize, usize, &str); 12] = [
+    (1_100_000, 2, "[0]"),
+    (1_100_000, 2, "[-1]"),
+    (1_100_000, 2, "[1:]"),
+    (1_100_000, 2, "[1]"),
+    (1_100_000, 1, "[::-1]"),
+    (3, 400_000, "[:]"),
+    (3, 400_000, "[::-1]"),
+    (3, 400_000, "[5:-5]"),
+    (3, 400_000, "[::2]"),
+    (5, 300_000, "[2::3]"),
+    (70_000, 16, "[-16:]"),
+    (2, 1_048_577, "[:]"),
+];
+
+fn run_scale(k: usize, acc: &mut Acc) -> Vec<(String, Value)> {
+    let (rows, width, seg) = SCALE[k];
+    let text = format!("$[*]{}", seg);
+    let describe = || json!({"kind":"scale","query": text, "rows": rows, "width": width});
+    let mut out = vec![];
+    let sels = match analyze(&text).ast {
+        Some(q) => q.segments[1].selectors.clone(),
+        None => return vec![(format!("scale query does not parse: {}", text), describe())],
+    };
+    let doc = Value::Array((0..rows).map(|r| Value::Array((0..width).map(|c| json!(r * width + c)).collect())).collect());
+    // expected (row, column) pairs in RFC order
+    let mut per_row: Vec<usize> = vec![];
+    for s in &sels {
+        match s {
+            Selector::Index(i) => {
+                let j = if *i >= 0 { *i } else { width as i64 + *i };
+                if j >= 0 && (j as usize) < width {
+                    per_row.push(j as usize);
+                }
+            }
+            Selector::Slice(a, b, c) => per_row.extend(oracle::eval::slice_indices(width, *a, *b, *c)),
+            _ => {}
+        }
+    }
+    let expected = rows * per_row.len();
+    acc.count("scale_expected_nodes", expected as u64);
+    match libapi::query_with_path(&text, &doc) {
+        LibOutcome::Ok(ns) => {
+            if ns.len() != expected {
+                out.push((format!("{} over {} rows of {} elements selects {} nodes, RFC 9535 gives {}", text, rows, width, ns.len(), expected), describe()));
+            } else {
+                let mut bad = None;
+                let mut k = 0usize;
+                'rows: for r in 0..rows {
+                    for c in &per_row {
+                        let (a, p) = &ns[k];
+                        if *a != libapi::addr(&doc[r][*c]) || *p != format!("$[{}][{}]", r, c) {
+                            bad = Some((k, p.clone(), format!("$[{}][{}]", r, c)));
+                            break 'rows;
+                        }
+                        k += 1;
+                    }
+                }
+                match bad {
+                    Some((k, got, want)) => out.push((format!("{} over {} rows of {} elements: result {} is {} instead of {}", text, rows, width, k, got, want), describe())),
+                    None => {
+                        acc.count("held_scale", 1);
+                        acc.nontrivial(text.as_bytes());
+                    }
+                }
+            }
+        }
+        o => out.push((format!("{} over {} rows of {} elements: {}", text, rows, width, o.brief()), describe())),
+    }
+    out
 }
 
 impl CaseSet for Set {
     fn len(&self) -> usize {
         self.cases.len()
     }
-    fn cpu_budget_s(&self, _idx: usize) -> f64 {
-        5.0
+    fn cpu_budget_s(&self, idx: usize) -> f64 {
+        if self.cases[idx].family == "scale" { 120.0 } else { 5.0 }
     }
     fn describe(&self, idx: usize) -> Value {
         let c = &self.cases[idx];
+        if c.family == "scale" {
+            let (rows, width, seg) = SCALE[c.len];
+            return json!({"kind": "scale", "query": format!("$[*]{}", seg), "rows": rows, "width": width, "family": "scale"});
+        }
         let (q, d) = self.build_idx(idx);
         json!({"kind": "query", "query": render_canonical(&q), "document": serde_json::from_str::<Value>(&d.to_text()).unwrap_or(Value::Null), "family": c.family, "array_length": c.len})
     }
     fn run(&self, idx: usize, acc: &mut Acc) -> Vec<(String, Value)> {
         let c = &self.cases[idx];
+        if c.family == "scale" {
+            acc.evaluations += 1;
+            acc.count("family_scale", 1);
+            return run_scale(c.len, acc);
+        }
         let (ast, dj) = self.build_idx(idx);
         let doc = Doc::new(&dj);
         let text = render_canonical(&ast);
         let mut out = vec![];
         acc.evaluations += 1;
         acc.count(&format!("family_{}", c.family), 1);
-        acc.count(&format!("context_{}", ["root", "under-name", "under-descendant", "in-filter-query", "singular-index-eq-first", "singular-index-eq-last"][c.context as usize]), 1);
+        acc.count(&format!("context_{}", ["root", "under-name", "under-descendant", "in-filter-query", "singular-index-eq-first", "singular-index-eq-last", "in-filter-query-then-name", "in-filter-query-then-index", "in-filter-query-then-filter"][c.context as usize]), 1);
         // route 1: through the parser
         let parsed = analyze(&text);
         let j = judge_query(&text, &parsed, &doc, NODES | ORDER | PATHS, &self.armed);
